@@ -24,11 +24,21 @@ import (
 
 // CaseConfig is everything that defines a case besides the PRNG stream.
 type CaseConfig struct {
-	Universe   []string                                // every id that has a key
-	Committees map[uint64][]interfaces.CommitteeMember // per height 1..MaxH+1
-	Byz        map[string]bool                         // Byzantine ids (static)
-	Outsiders  map[string]bool                         // ids with keys that never run a node (adversary owned)
-	MaxH       uint64                                  // heights decided in this case
+	Universe      []string                                // every id that has a key
+	Committees    map[uint64][]interfaces.CommitteeMember // per height 1..MaxH+1
+	Byz           map[string]bool                         // Byzantine ids (static)
+	Outsiders     map[string]bool                         // ids with keys that never run a node (adversary owned)
+	MaxH          uint64                                  // heights decided in this case
+	OtherInst     uint64                                  // instance id of the parallel instance that runs with the same member keys
+	otherInstZero bool                                    // OtherInst == 0 was chosen on purpose (unset means the default, 8)
+}
+
+// OtherInstId: see OtherInst (scripted worlds leave it unset: 8).
+func (c *CaseConfig) OtherInstId() uint64 {
+	if c.OtherInst == 0 && !c.otherInstZero {
+		return uint64(spi.OtherInstanceId)
+	}
+	return c.OtherInst
 }
 
 func (c *CaseConfig) Committee(h uint64) []interfaces.CommitteeMember {
